@@ -109,3 +109,12 @@ Proof.
   - split; [congruence|]. intros H. inversion H; subst. apply IH in H3. congruence.
   - split; [congruence|]. intros H. inversion H; subst. cbn in H2. congruence.
 Qed.
+
+(* Error() of a NestedError (at least one layer) is never the empty text: an object starts
+   with '{', the fallback contains ": " *)
+Theorem error_text_nonempty cause l inner : fst (error_layers cause (l :: inner)) <> [].
+Proof.
+  cbn [error_layers]. destruct (error_layers cause inner) as [itext inner']. cbn [fst].
+  unfold jobject. destruct (jmembers _) as [ms|]; [discriminate|].
+  intros H. apply app_eq_nil in H. destruct H as [_ H]. discriminate H.
+Qed.
